@@ -7,7 +7,8 @@ import json, os
 from mpmath import (mp, mpf, gamma, exp, log, sqrt, pi, erf, gammainc, betainc, beta, binomial, floor, nstr, inf, power)
 mp.dps = 40
 OUT = os.path.join(os.path.dirname(os.path.dirname(os.path.abspath(__file__))), "spec", "ref", "dist.ndjson")
-Q = lambda q: mpf(q) / 4
+DEN = 4
+def Q(q): return mpf(q) / DEN
 
 def normal(p):
     mu, s = Q(p[0]), Q(p[1])
@@ -87,6 +88,20 @@ GRID = {
  "Bernoulli": (bern, [[0], [1], [2], [3], [4]]),
 }
 
+# rows beyond the quarter grid: the tuple carries the denominator of its real-valued fields as a last element
+# (slow rates ~1e-3, rare events p ~ 3e-5 and their mirror images, scales ~1e-3)
+FINE = {
+ "Normal": [[4002, 1, 1024]],
+ "Gamma": [[1536, 1, 1024], [512, 2, 1024]],
+ "Pareto": [[1536, 1, 1024]],
+ "Gumbel": [[100, 1, 1024]],
+ "Exponential": [[1, 1024], [3, 1024]],
+ "Uniform": [[1, 2, 1024]],
+ "Poisson": [[1, 1024], [5, 1024]],
+ "Binomial": [[1, 1, 32768], [10, 1, 32768], [10, 32767, 32768], [1000, 1, 32768], [1000, 32767, 32768], [40, 3, 1024]],
+ "Bernoulli": [[1, 32768], [32767, 32768]],
+}
+
 def points(kind, p, cdf):
     """dyadic evaluation points: quantile-ish spread inside the support, its boundary, outside on both sides, far tails"""
     xs = set()
@@ -113,7 +128,7 @@ def points(kind, p, cdf):
                 ks.add(b)
         return sorted((k, 1) for k in ks)
     # continuous: bracket the bulk by bisection on the cdf over dyadic points
-    lo, hi = -(mpf(2) ** 14), mpf(2) ** 14
+    lo, hi = (-(mpf(2) ** 14), mpf(2) ** 14) if DEN == 4 else (-(mpf(2) ** 20), mpf(2) ** 20)
     qs = [mpf(k) / 16 for k in (1, 2, 4, 6, 8, 10, 12, 14, 15)] + [mpf(1) / 1000, 1 - mpf(1) / 1000, mpf(1) / 10 ** 6, 1 - mpf(1) / 10 ** 6]
     for q in qs:
         a, b = lo, hi
@@ -125,10 +140,10 @@ def points(kind, p, cdf):
         m = (a + b) / 2
         sc = 1024 if abs(m) < 2 ** 16 else 1
         xs.add((int(floor(m * sc + mpf(1) / 2)), sc))
-    extra = {"Uniform": [(p[0], 4), (p[1], 4), (p[0] - 1, 4), (p[1] + 1, 4), (p[0] - 400, 4), (p[1] + 4000, 4)] if kind == "Uniform" else [],
+    extra = {"Uniform": [(p[0], DEN), (p[1], DEN), (p[0] - 1, DEN), (p[1] + 1, DEN), (p[0] - 400, DEN), (p[1] + 4000, DEN)] if kind == "Uniform" else [],
              "Beta": [(-1, 4), (5, 4), (-100, 1), (1, 1024), (1023, 1024), (0, 1), (1, 1)], "Gamma": [(-1, 4), (-1000, 1), (1, 1024), (0, 1)], "ChiSquared": [(-1, 4), (-7, 1), (1, 1024), (0, 1)],
-             "Exponential": [(-1, 4), (0, 1), (-50, 1)], "Pareto": [(p[1] - 1, 4), (p[1], 4), (-3, 1), (0, 1), (p[1] * 64, 4)] if kind == "Pareto" else [],
-             "Normal": [(p[0] - 40 * p[1], 4), (p[0] + 30 * p[1], 4)] if kind == "Normal" else [], "T": [(0, 1), (-1000, 1), (4000, 1)], "Gumbel": [(p[0] - 8 * p[1], 4), (p[0] + 200 * p[1], 4), (p[0] - 3000 * p[1], 4)] if kind == "Gumbel" else []}
+             "Exponential": [(-1, 4), (0, 1), (-50, 1)], "Pareto": [(p[1] - 1, DEN), (p[1], DEN), (-3, 1), (0, 1), (p[1] * 64, DEN)] if kind == "Pareto" else [],
+             "Normal": [(p[0] - 40 * p[1], DEN), (p[0] + 30 * p[1], DEN)] if kind == "Normal" else [], "T": [(0, 1), (-1000, 1), (4000, 1)], "Gumbel": [(p[0] - 8 * p[1], DEN), (p[0] + 200 * p[1], DEN), (p[0] - 3000 * p[1], DEN)] if kind == "Gumbel" else []}
     for e in extra.get(kind, []): xs.add(e)
     seen, out = set(), []
     for t in sorted(xs, key=lambda t: (mpf(t[0]) / t[1], t[1])):
@@ -137,9 +152,12 @@ def points(kind, p, cdf):
         seen.add(v); out.append(t)
     return out
 
+ALL = [(kind, mk, p, 4) for kind, (mk, plist) in GRID.items() for p in plist] + \
+      [(kind, GRID[kind][0], p, p[-1]) for kind, plist in FINE.items() for p in plist]
 with open(OUT, "w") as f:
-    for kind, (mk, plist) in GRID.items():
-        for p in plist:
+    if True:
+        for (kind, mk, p, den) in ALL:
+            DEN = den
             pdf, cdf = mk(p)
             pts = []
             for (xn, xd) in points(kind, p, cdf):
